@@ -6,7 +6,7 @@ from datetime import timedelta
 
 import numpy as np
 
-from mc.core import Acc
+from mc.core import Acc, guard
 from mc import simspace as S
 
 ID = "C05"
@@ -204,6 +204,7 @@ def one_run(scn, mutate):
                 sim.event_queue.add_events(later)
                 sim.run()
         except Exception as exc:
+            guard(exc)
             err = exc
     return sim, rec, evs, periods, log, tpl, err
 
